@@ -79,6 +79,10 @@ func genKPath(g *Gen, depth int) string {
 			parts[i] = nastyNames[g.Intn(len(nastyNames))]
 		} else if g.Chance(1, 8) {
 			parts[i] = g.From(" \\\t\n017a", 1+g.Intn(5))
+		} else if g.Chance(1, 40) {
+			// a long component: three of them in an overlay's options make a line of more
+			// than 4096 bytes (still far below PATH_MAX)
+			parts[i] = strings.Repeat(g.Pick("x", "long name ", "é"), 200+g.Intn(1200))
 		} else {
 			parts[i] = g.Pick("mnt", "var", "lib", "layercake", "layers", "build", "dev", "sys", "d0", "b0")
 		}
